@@ -19,6 +19,7 @@ from .core import RealCodeError
 
 NAME = 'E6'
 URL = 'http://sim.invalid/data/file.bin'
+MIRROR = 'http://mirror.invalid/cdn/0a1b2c/file.bin'   # where a redirected download ends up
 
 DATA_BASIC = ['good', 'corrupt', 'http404']
 DATA_KINDS = ['good', 'corrupt', 'corrupt_trunc', 'corrupt_extra', 'corrupt_empty', 'http404',
@@ -125,6 +126,8 @@ def gen(rng, prop, tier):
             disk = rng.randint(1, 6)
         ops.append(_call(data, md5, head=rng.choice(HEAD_KINDS),
                          chunk=rng.choice([1, 7, 16, 64, 1024, 4096]), disk=disk))
+        if rich and rng.random() < 0.15:
+            ops[-1]['redirect'] = True   # the data URL redirects to a mirror without .md5 files
     return {'engine': NAME, 'cfg': cfg, 'ops': ops}
 
 
@@ -251,7 +254,7 @@ class Server(object):
 
     def begin(self, op):
         self.script = {'data': list(op['data']), 'md5': list(op['md5']), 'head': op['head'],
-                       'chunk': op['chunk']}
+                       'chunk': op['chunk'], 'redirect': bool(op.get('redirect'))}
         self.requests = []
         self.data_served = []
         self.md5_answers = []
@@ -261,6 +264,10 @@ class Server(object):
         return s.pop(0) if len(s) > 1 else s[0]
 
     def get(self, url, stream=None, **kw):
+        if url.endswith('.md5') and not url.startswith(URL):
+            # a checksum asked for next to the REDIRECTED location: the mirror publishes none
+            self.requests.append(('GET', 'md5_at_mirror', 'missing'))
+            return Response(url, status=404, text='Not found')
         if url.endswith('.md5'):
             kind = self._next('md5')
             self.requests.append(('GET', 'md5', kind))
@@ -294,6 +301,8 @@ class Server(object):
         kind = self._next('data')
         self.requests.append(('GET', 'data', kind))
         chunk = self.script['chunk']
+        if self.script.get('redirect'):
+            url = MIRROR      # the response's final URL after an HTTP redirect
         if kind == 'conn_error':
             self.data_served.append(None)
             raise SimConnectionError('connection refused')
@@ -445,11 +454,19 @@ def execute(plan, ctx):
         md5_reqs = [r for r in server.requests if r[1] == 'md5']
         n_data = len(data_reqs)
         answers = server.md5_answers
-        available = len(answers) >= 1 and all(a is not None for a in answers) \
-            and len(set(answers)) == 1
-        published = answers[0] if available else None
-        # what the script WOULD have answered had a checksum been requested (for the skip clause)
+        # what the script WOULD have answered had a checksum been requested
         uniform = set(op['md5'])
+        # the checksum is available for the whole call when the server publishes one and the same
+        # checksum throughout (whether or not the call asked for it, and wherever it asked), or
+        # when every request the call made was answered with the same published checksum
+        script_pub = server.p_ok if uniform <= {'correct', 'with_filename'} else (
+            server.p_wrong if uniform == {'wrong'} else (
+                server.p_ok[:-1] if uniform == {'wrong_truncated'} else None))
+        available = script_pub is not None or (
+            len(answers) >= 1 and all(a is not None for a in answers) and len(set(answers)) == 1)
+        published = script_pub if script_pub is not None else (answers[0] if available else None)
+        if op.get('redirect'):
+            ctx.probe('redirected_download')
         ctx.ev(step, 'download', [r[2] for r in server.requests],
                type(raised).__name__ if raised else 'returned',
                _md5(final) if final is not None else None)
